@@ -30,6 +30,7 @@ package obu
 //@ pure grp(x, j) = ((x / pow256(j)) % 128) * pow128(byteLen(x) - 1 - j)
 //@ spec decodeLEB128
 //@   loop 0: unroll 8 complete
+//@   ensures bound [C13,C09,C19]: int(result0) < 72057594037927936
 //@   ensures value [C13]: int(result0) == (grp(int(in), 0) + ite(1 < byteLen(int(in)), grp(int(in), 1), 0) + ite(2 < byteLen(int(in)), grp(int(in), 2), 0) + ite(3 < byteLen(int(in)), grp(int(in), 3), 0) + ite(4 < byteLen(int(in)), grp(int(in), 4), 0) + ite(5 < byteLen(int(in)), grp(int(in), 5), 0) + ite(6 < byteLen(int(in)), grp(int(in), 6), 0) + ite(7 < byteLen(int(in)), grp(int(in), 7), 0)) % 18446744073709551616
 //@ end
 
@@ -40,6 +41,7 @@ package obu
 //@ pure lebVal(s, n) = int(s[0]) % 128 + ite(1 < n, (int(s[1]) % 128) * 128, 0) + ite(2 < n, (int(s[2]) % 128) * 16384, 0) + ite(3 < n, (int(s[3]) % 128) * 2097152, 0) + ite(4 < n, (int(s[4]) % 128) * 268435456, 0) + ite(5 < n, (int(s[5]) % 128) * 34359738368, 0) + ite(6 < n, (int(s[6]) % 128) * 4398046511104, 0) + ite(7 < n, (int(s[7]) % 128) * 562949953421312, 0)
 //@ spec ReadLeb128
 //@   ensures shape [C13,C19,C09]: result2 == nil ==> 1 <= int(result1) && int(result1) <= len(in) && int(in[int(result1) - 1]) < 128 && (forall i :: 0 <= i && i < int(result1) - 1 ==> int(in[i]) >= 128)
+//@   ensures bound [C13,C09,C19]: int(result0) < 72057594037927936
 //@   ensures failed [C13,C19,C09]: result2 != nil ==> errIs(result2, ErrFailedToReadLEB128) && result0 == 0 && result1 == 0 && (forall i :: 0 <= i && i < len(in) ==> int(in[i]) >= 128)
 //@   loop 0: invariant scanned [C13,C19,C09]: rangeindex <= len(in) - 1 && (forall i :: 0 <= i && i <= rangeindex ==> int(in[i]) >= 128)
 //@   loop 0: invariant accumulated_unused [C13]: true
